@@ -40,7 +40,7 @@ def tokenize(src):
 
 def find_fn(src, name):
     """text of `fn name(...) -> T { ... }` (brace matched)"""
-    m = re.search(r"\bfn\s+" + re.escape(name) + r"\s*\(", src)
+    m = re.search(r"\bfn\s+" + re.escape(name) + r"\s*[<(]", src)
     if not m:
         raise Unsupported(f"fn {name} not found")
     i = src.index("{", m.end())
@@ -168,6 +168,11 @@ class P:
             if self.at("."):
                 self.eat()
                 m = self.eat("id")[1]
+                if not self.at("("):
+                    if e[0] != "var":
+                        raise Unsupported("field access on an expression")
+                    e = ("var", e[1] + "_" + m)          # field access: value.start -> value_start
+                    continue
                 if m not in ("min", "max"):
                     raise Unsupported("method " + m)
                 self.eat("op", "(")
@@ -218,6 +223,7 @@ class P:
         raise Unsupported(f"unexpected token {k} {v}")
 
 
+RESERVED = {"end", "from", "at", "then", "do", "fun", "let", "in", "open", "where", "with", "have", "show", "by"}
 CMP = {"==": "=", "!=": "≠", "<": "<", "<=": "≤", ">": ">", ">=": "≥"}
 
 
@@ -228,7 +234,7 @@ def lean(e):
     if k == "bool":
         return e[1]
     if k == "var":
-        return e[1]
+        return e[1] + "_" if e[1] in RESERVED else e[1]
     if k == "neg":
         return f"(-{lean(e[1])})"
     if k == "not":
@@ -283,6 +289,56 @@ def translate(src, roots):
     for r in roots:
         need(r)
     return "\n\n".join(out)
+
+
+def free_vars(e, acc=None):
+    acc = set() if acc is None else acc
+    if e[0] == "var":
+        acc.add(e[1])
+    else:
+        for x in e[1:]:
+            if isinstance(x, tuple):
+                free_vars(x, acc)
+            elif isinstance(x, list):
+                for y in x:
+                    free_vars(y, acc)
+    return acc
+
+
+def parse_expr(text):
+    p = P(tokenize(text), set())
+    e = p.expr()
+    if p.peek()[0] != "eof":
+        raise Unsupported("trailing tokens in expression: " + text)
+    return e
+
+
+def range_filters(src, fn_name, assigned=()):
+    """the `if <cond> {` conditions of fn `fn_name` that mention both query bounds `start` and `end`, each with the
+    expressions assigned to the l-values in `assigned` (e.g. "value.start") right after it.
+    -> [(cond_ast, {lvalue: expr_ast})]"""
+    body = find_fn(src, fn_name)
+    out = []
+    for m in re.finditer(r"\bif\s+([^{};]+?)\s*\{", body):
+        c = m.group(1)
+        if not (re.search(r"(?<![.\w])start\b", c) and re.search(r"(?<![.\w])end\b", c)):
+            continue
+        cond = parse_expr(c)
+        tail = body[m.end():m.end() + 400]
+        tail = tail[:tail.index("}")] if "}" in tail else tail
+        asg = {}
+        for lv in assigned:
+            am = re.search(re.escape(lv) + r"\s*=\s*([^;=][^;]*);", tail)
+            if not am:
+                raise Unsupported(f"no assignment to {lv} after the filter")
+            asg[lv] = parse_expr(am.group(1))
+        out.append((cond, asg))
+    return out
+
+
+def lean_def(name, params, ret, e):
+    ps = " ".join(f"({p + '_' if p in RESERVED else p} : Nat)" for p in params)
+    return f"def {name} {ps} : {ret} :=\n  {lean(e)}"
 
 
 if __name__ == "__main__":
